@@ -25,7 +25,8 @@ RULE = (
     "one evaluation = one history on one file: load, then 2-4 cycles of (1-4 edits of catalogue slots of the LOADED "
     "object: project fields, common module fields, any controller, any option, MIDI bindings, type-specific payload incl. "
     "Sampler envelopes/samples/maps/effect and embedded MetaModule projects, links, pattern fields and cells) -> save -> "
-    "restart -> load, judged by the differential oracle (unchanged paths stay, changed paths show). Files: all fixtures "
+    "restart -> load (15% of histories write the hash-colliding twin values -1/-2 alternately to one signed scalar, cycle "
+    "after cycle), judged by the differential oracle (unchanged paths stay, changed paths show). Files: all fixtures "
     "and seeded generated projects. non-trivial = at least one edit changed the live snapshot; distinct = distinct "
     "(file, op list) hashes"
 )
@@ -59,6 +60,15 @@ def apply_edit(obj, e, layout=1):
         return builder.Session(obj, layout=layout).apply(e)
     mod = obj.module
     builder.set_layout(layout)
+    if e["k"] == "neg":
+        try:
+            return builder.apply_neg(mod, e, in_project=False)
+        except (KeyboardInterrupt, HarnessTimeout):
+            raise
+        except Exception as ex:
+            if not env.raised_in_rv(ex):
+                raise
+            return "error:" + type(ex).__name__
     slots = builder.module_slots(mod, None, in_project=False, layout=layout)
     label, setter = slots[e["s"] % len(slots)]
     try:
@@ -194,8 +204,21 @@ def generate(seed, i, tier="quick", spec=None):
     focus = None
     if r.random() < 0.5:
         focus = {"k": "set", "m": r.randrange(1000), "s": r.randrange(100000), "low": r.getrandbits(12)}
-    for _ in range(r.randint(2, 4)):
+    # swarm: some runs write the "twin" values -1 / -2 alternately to one signed field (common
+    # fields, signed controllers, Sampler envelope points, sample tuning): the one in-domain pair
+    # whose hashes collide, so a save path that decides "unchanged since load" from a hash stamp
+    # writes the stale bytes
+    twin = None
+    if r.random() < 0.15:
+        focus = None
+        twin = {"k": "neg", "m": r.randrange(1000), "a": r.randrange(100000), "smp": r.random() < 0.7, "y": r.choice((-1, -2))}
+    for cyc in range(r.randint(2, 4)):
         edits = []
+        if twin is not None:
+            edits.append(dict(twin, y=twin["y"] if cyc % 2 == 0 else -3 - twin["y"]))
+            if r.random() < 0.5:
+                ops.append({"k": "edit", "edits": edits})
+                continue
         for _ in range(r.randint(1, 4)):
             if focus is not None and r.random() < 0.45:
                 edits.append({"k": "set", "m": focus["m"], "s": focus["s"], "v": focus["low"] | (r.getrandbits(50) << 12)})
